@@ -337,6 +337,7 @@ pub fn run(tier: &str, prop: Prop) -> i32 {
 
     cell_pairs(&mut rep, prop, what, thorough);
     parsed_ranges(&mut rep, prop);
+    other_constructors(&mut rep, prop, what);
     failing_writer(&mut rep, prop);
     if prop == Prop::C06 {
         tokens_roundtrip(&mut rep);
@@ -507,6 +508,56 @@ fn parsed_ranges(rep: &mut Report, prop: Prop) {
         }
     }
     rep.sub("parsed-ranges", "ranges obtained by parsing: all 2,652 ordered card-pair texts, a ninth of them also as 'ab:0.25,ba:0.75', the combos of every rank pair spelled second-card-first, every kicker-first rank-pair token alone and beside its high-first twin: canonical keys, canonical text, and the object equals the range parsed from its own text", texts.len() as u64, texts.len() as u64, true, json!({}));
+}
+
+/// the remaining ways of building and reading a range: collect() from bare pairs (weight 1), empty(),
+/// iteration over a reference
+fn other_constructors(rep: &mut Report, prop: Prop, what: &str) {
+    let mut shapes: Vec<Vec<Combo>> = RP::all().iter().map(|rp| rp.combos()).collect();
+    shapes.push(all_combos());
+    shapes.push(vec![]);
+    shapes.push(all_combos().into_iter().step_by(3).collect());
+    for (i, rp) in RP::all().iter().enumerate() {
+        if i % 6 == 0 {
+            let mut v = rp.combos();
+            v.pop();
+            v.push(Combo::new(0, 51));
+            shapes.push(v);
+        }
+    }
+    let outs = par_map(shapes.len(), |i| {
+        let combos = shapes[i].clone();
+        let contents: Contents = combos.iter().map(|c| (*c, bits(1.0))).collect();
+        let r = catch(move || {
+            let bare: HandRange = combos.iter().map(|c| c.card_pair()).collect();
+            let weighted: HandRange = combos.iter().map(|c| (c.card_pair(), 1.0f32)).collect();
+            let mut twice: Vec<espada::hand_range::CardPair> = combos.iter().map(|c| c.card_pair()).collect();
+            twice.extend(combos.iter().rev().map(|c| c.card_pair()));
+            let bare_twice: HandRange = twice.into_iter().collect();
+            let by_ref: Contents = (&bare).into_iter().map(|(cp, w)| (Combo::of(cp), w.to_bits())).collect();
+            let empty_ok = !combos.is_empty() || (bare == HandRange::empty() && HandRange::empty().to_string().is_empty());
+            (contents_of(&bare), by_ref, bare == weighted && bare == bare_twice && empty_ok, bare.to_string(), weighted.to_string(), bare_twice.to_string())
+        });
+        match r {
+            Err(e) => Some((contents, json!({"panic": e}))),
+            Ok((c1, c2, eq, t1, t2, t3)) => {
+                if c1 != contents || c2 != contents {
+                    Some((contents, json!({"problem": "collect() from bare pairs (weight 1) or iteration over &range does not give the inserted combos at weight 1"})))
+                } else if !eq || t1 != t2 || t1 != t3 {
+                    Some((contents, json!({"problem": "ranges with equal contents built from bare pairs, weighted pairs and repeated pairs differ", "bare": t1, "weighted": t2, "bare_twice": t3})))
+                } else {
+                    check(prop, &contents).map(|v| (contents, v))
+                }
+            }
+        }
+    });
+    let n = shapes.len() as u64;
+    for o in outs {
+        if let Some((c, b)) = o {
+            record(rep, "other-constructors", &c, what, b);
+        }
+    }
+    rep.sub("other-constructors", "every rank pair, the full range, the empty range, every third combo and 29 mixed shapes built by collect() from bare pairs (FromIterator<CardPair>, weight 1), from weighted pairs and from every pair twice; read back through card_pairs() and through iteration over &range; HandRange::empty()", n, n, false, json!({}));
 }
 
 struct Limited {
